@@ -356,7 +356,15 @@ func (h *Hub) topicsStateForUser(uid types.Uid, suspended bool) {
 			return true
 		}
 
-		if _, isMember := topic.perUser[uid]; (topic.cat == types.TopicCatP2P && isMember) || topic.owner == uid {
+		// This function runs in its own goroutine: topic.perUser belongs to the topic's goroutine and
+		// must not be read here. The participants of a P2P topic are known from the topic name.
+		isMember := false
+		if topic.cat == types.TopicCatP2P {
+			if uid1, uid2, err := types.ParseP2P(topic.name); err == nil {
+				isMember = uid1 == uid || uid2 == uid
+			}
+		}
+		if isMember || topic.owner == uid {
 			topic.markReadOnly(suspended)
 
 			// Don't send "off" notification on suspension. They will be sent when the user is evicted.
